@@ -31,16 +31,14 @@ Proof. exact time_mask_nonempty. Qed.
 Theorem C08_dilation_ge_1 : forall K d0 gamma, 1 <= d0 -> 1 <= dilation_opt true K d0 gamma.
 Proof. exact dilation_opt_ge_1. Qed.
 
-(* for K <= 64 (the property asks for 1..12): the kept taps are exactly the taps of the exported layer,
-   an arithmetic progression of kernel_size_opt taps spaced dilation_opt ending at the last timestep.
-   The bound comes from the finite combinatorial lemma check_all_64 (evaluated by vm_compute); the
-   reduction of every real (beta, gamma) to a pattern (r, v) is proved for all K. *)
-Theorem C08_kept_taps_progression_64 : forall K d0 beta gamma, 1 <= K <= 64 -> length beta = K -> length gamma = gamma_len K ->
+(* for EVERY K: the kept taps are exactly the taps of the exported layer, an arithmetic progression of
+   kernel_size_opt taps spaced dilation_opt (= 2^v x initial dilation) ending at the last timestep. *)
+Theorem C08_kept_taps_progression : forall K d0 beta gamma, 1 <= K -> length beta = K -> length gamma = gamma_len K ->
   let m := time_mask true K beta gamma in
   let k' := kernel_size_opt true K beta gamma in
   exists v, v < gamma_len K /\ dilation_opt true K d0 gamma = 2 ^ v * d0 /\
             kept_lags K m = export_lags k' (2 ^ v) /\ 1 <= k'.
-Proof. exact kept_taps_progression_64. Qed.
+Proof. exact kept_taps_progression. Qed.
 
 (* the comb of the pinned upstream commit is anchored at tap 0: a kernel can vanish *)
 Theorem C08_upstream_empty_kernel_refuted : exists K beta gamma, length beta = K /\ length gamma = gamma_len K /\
@@ -59,5 +57,5 @@ Print Assumptions C08_beta_suffix.
 Print Assumptions C08_gamma_comb.
 Print Assumptions C08_time_mask_nonempty.
 Print Assumptions C08_dilation_ge_1.
-Print Assumptions C08_kept_taps_progression_64.
+Print Assumptions C08_kept_taps_progression.
 Print Assumptions C08_upstream_empty_kernel_refuted.
